@@ -503,6 +503,21 @@ CANARIES.update({
         old="deps.update(recurse(parent))", new="recurse(parent)",
         job="c16:_add_dependency_meta[<=4]", expect=["C16:transforms._unit_scale._add_dependency_meta:dependencies==ancestors"],
     ),
+    "c16-inductive-dependencies-parents-only": dict(
+        props=["C16"], file=US_FILE, module=US_MOD, not_proved=True,
+        old="deps.update(recurse(parent))", new="recurse(parent)",
+        job="c16:_add_dependency_meta.recurse[inductive]", expect=["deps==inputs_U_ancestors_of_visited_parents"],
+    ),
+    "c16-inductive-memo-mutated-through-an-alias": dict(
+        props=["C16"], file=US_FILE, module=US_MOD, not_proved=True,
+        old="            deps.update(recurse(parent))", new="            d = recurse(parent)\n            d.update(deps)\n            deps.update(d)",
+        job="c16:_add_dependency_meta.recurse[inductive]", expect=["memo_invariant", "other_sets_unchanged"],
+    ),
+    "c16-inductive-memo-not-recorded": dict(
+        props=["C16"], file=US_FILE, module=US_MOD, not_proved=True,
+        old='        n.meta["dependencies"] = deps\n', new="",
+        job="c16:_add_dependency_meta.recurse[inductive]", expect=["memo_recorded"],
+    ),
     "c16-self-attention-looks-past-the-skip": dict(
         props=["C16"], file=US_FILE, module=US_MOD,
         old="        if p == skip_node:\n            continue", new="        if p is None:\n            continue",
